@@ -20,7 +20,8 @@ func (c *connLimiter) update(maxConn int32) {
 
 func (c *connLimiter) take() bool {
 	x := atomic.AddInt32(&c.tmp, 1)
-	if x <= atomic.LoadInt32(&c.lim) {
+	// lim<=0 means no limit
+	if lim := atomic.LoadInt32(&c.lim); lim <= 0 || x <= lim {
 		atomic.AddInt32(&c.now, 1)
 		return true
 	}
